@@ -508,6 +508,28 @@ static cbor_item_t* build_item(void) {
     size_t n; unsigned char* d = parse_hex(h, &n); free(h);
     r = k[0] == 'b' ? cbor_build_bytestring(d, n) : cbor_build_stringn((const char*)d, n);
     free(d);
+  } else if (!strcmp(k, "bsz") || !strcmp(k, "tsz")) {
+    /* definite string whose length metadata is forged (no such data exists): only for size computation */
+    sx_word(v, sizeof v);
+    unsigned char* d = hx_malloc(1); d[0] = 0x61;
+    if (k[0] == 'b') { r = cbor_new_definite_bytestring(); cbor_bytestring_set_handle(r, d, 1); r->metadata.bytestring_metadata.length = parse_u64(v); }
+    else { r = cbor_new_definite_string(); cbor_string_set_handle(r, d, 1); r->metadata.string_metadata.length = parse_u64(v); }
+  } else if (!strcmp(k, "bszi") || !strcmp(k, "tszi")) {
+    bool text = k[0] == 't';
+    r = text ? cbor_new_indefinite_string() : cbor_new_indefinite_bytestring();
+    for (;;) {
+      sx_ws();
+      if (*sx == ')') { sx++; break; }
+      if (!*sx) { build_failed = true; break; }
+      sx_word(v, sizeof v);
+      unsigned char* d = hx_malloc(1); d[0] = 0x61;
+      cbor_item_t* c;
+      if (!text) { c = cbor_new_definite_bytestring(); cbor_bytestring_set_handle(c, d, 1); c->metadata.bytestring_metadata.length = parse_u64(v); }
+      else { c = cbor_new_definite_string(); cbor_string_set_handle(c, d, 1); c->metadata.string_metadata.length = parse_u64(v); }
+      if (!(text ? cbor_string_add_chunk(r, c) : cbor_bytestring_add_chunk(r, c))) build_failed = true;
+      cbor_decref(&c);
+    }
+    return r;
   } else if (!strcmp(k, "bsi")) { return build_chunked(false);
   } else if (!strcmp(k, "tsi")) { return build_chunked(true);
   } else if (!strcmp(k, "arr") || !strcmp(k, "arri") || !strcmp(k, "map") || !strcmp(k, "mapi")) {
@@ -556,6 +578,18 @@ static cbor_item_t* item_of_sexp(char* s) {
   cbor_item_t* r = build_item();
   if (build_failed || !r) return NULL;
   return r;
+}
+
+/* ------------------------------------------------------------------ stream: sizes (C20): declared lengths */
+static void do_sizes(char* line) {
+  a_reset(); a_live = 0;
+  cbor_item_t* it = item_of_sexp(line);
+  if (!it) { ob_printf("BADCASE"); return; }
+  unsigned long before = a_requests;
+  ob_printf("size=%zu", cbor_serialized_size(it));
+  if (a_requests != before) ob_printf(" ALLOCS");
+  cbor_decref(&it);
+  if (a_live != 0) ob_printf(" LEAK=%ld", a_live);
 }
 
 /* ------------------------------------------------------------------ stream: ser */
@@ -938,6 +972,7 @@ int main(int argc, char** argv) {
   else if (!strcmp(stream, "depth")) f = do_depth;
   else if (!strcmp(stream, "copy")) f = do_copy;
   else if (!strcmp(stream, "ser")) f = do_ser;
+  else if (!strcmp(stream, "sizes")) f = do_sizes;
   else if (!strcmp(stream, "rt")) f = do_rt;
   else if (!strcmp(stream, "seq")) f = do_seq;
   else if (!strcmp(stream, "bigsuffix")) f = do_bigsuffix;
